@@ -413,7 +413,7 @@ func dumpDataset(f *hdf5.File, v *hdf5.Dataset, od *ObjDump, o DumpOpts) {
 			return
 		}
 		n := 0
-		for it.Next() && n < 100000 {
+		for it.Next() && n < 4096 {
 			if _, err := it.Chunk(); err != nil {
 				od.IterErr = err.Error()
 				return
